@@ -7,8 +7,8 @@ import sys
 import time
 
 VERIF = os.path.dirname(os.path.dirname(os.path.abspath(__file__)))
-QUICK_TIMEOUT_MS = 20000
-THOROUGH_TIMEOUT_MS = 90000
+QUICK_TIMEOUT_MS = 60000
+THOROUGH_TIMEOUT_MS = 180000
 
 
 def load_known():
@@ -25,6 +25,10 @@ def load_lock():
         return None
     with open(p) as f:
         return json.load(f)
+
+
+def only_lemmas(o):
+    return o.get("kind", "").startswith("lemma")
 
 
 def stable_name(n):
@@ -68,8 +72,14 @@ def check_property(pid, tier="quick", only=None, jobs=None, verbose=False, overr
                 vacuous.append("%s: %s is unsatisfiable" % (r["unit"], name))
         if r["status"] == "ok" and not r["obligations"]:
             vacuous.append("%s: zero obligations" % r["unit"])
+        hv = (r.get("notes") or {}).get("havoc_calls") or []
         for ob in r["obligations"]:
             ob["unit"] = r["unit"]
+            if hv and ob["status"] == "refuted":
+                # an unknown callee was havocked in this unit: a counter-model may live in the havoc ("needs
+                # contract"), so the obligation is undecided, not violated
+                ob["status"] = "unknown"
+                ob["reason"] = "unit calls functions without contract (havocked): " + ", ".join(hv)
             obligations.append(ob)
     for e in extra:
         # extra obligations: dicts with name, status, backend, time, kind, and optionally 'bounded'
@@ -79,8 +89,25 @@ def check_property(pid, tier="quick", only=None, jobs=None, verbose=False, overr
     bounded = [o for o in obligations if o.get("bounded")]
     refuted = [o for o in obligations if o["status"] == "refuted"]
     unknown = [o for o in obligations if o["status"] == "unknown"]
+    # an undecided obligation is never a violation by itself; but the replay harness may find a *real* failing input
+    # (starting from a candidate model of the quantifier-free part, then the harness' own neighbourhood search)
+    still_unknown = []
     for o in unknown:
-        undecided.append("%s: solver unknown (%s)" % (o["name"], o.get("reason", "")))
+        rep = None
+        if hasattr(mod, "replay") and not only_lemmas(o):
+            try:
+                rep = mod.replay(dict(o, inputs=o.get("candidate_inputs") or {}))
+            except Exception as e:
+                rep = {"reproduced": False, "detail": "replay harness error: %r" % e}
+        if rep and rep.get("reproduced"):
+            o["status"] = "refuted"
+            o["replayed"] = rep
+            o["backend"] = "replay(real code)"
+        else:
+            still_unknown.append(o)
+            undecided.append("%s: solver unknown (%s)" % (o["name"], o.get("reason", "")))
+    refuted = [o for o in obligations if o["status"] == "refuted"]
+    unknown = still_unknown
 
     violations, known_lines = [], []
     os.makedirs(os.path.join(VERIF, "replays"), exist_ok=True)
@@ -98,8 +125,8 @@ def check_property(pid, tier="quick", only=None, jobs=None, verbose=False, overr
             rp = write_replay(pid, o, o.get("replay", {"reproduced": True, "detail": o.get("detail", "")}))
             violations.append("VIOLATION property=%s replay=%s" % (pid, rp))
             continue
-        rep = None
-        if hasattr(mod, "replay"):
+        rep = o.get("replayed")
+        if rep is None and hasattr(mod, "replay"):
             try:
                 rep = mod.replay(o)
             except Exception as e:
